@@ -1,4 +1,4 @@
-import GSProofs.Lemmas.AllocatorReach
+import GSProofs.Lemmas.AllocatorChoice
 /-!
 # C13 — Allocator never exceeds its limits and accounts memory exactly
 
@@ -276,5 +276,32 @@ example : (run pickMin (init 6 4) (exOps ++ [.releasePeer 0])).2 =
 example : stats (run pickMin (init 6 4) (exOps ++ [.releasePeer 0, .releasePeer 1])).1 = ⟨0, 0, 0⟩ := by
   decide
 example : (run pickMin (init 6 4) (exOps ++ [.releasePeer 0, .releasePeer 1])).1.peers = [] := by decide
+
+/-! ## History-dependent heap tie-breaks (audit item: `pick` is a function of the peer list only)
+
+`RunR` (GSProofs/Lemmas/AllocatorChoice.lean) is the nondeterministic semantics in which **every
+single `Peek` call** (each loop iteration of each operation) may return *any* comparator-minimal
+element — different answers at different calls, even on identical lists, as a real binary heap
+may give depending on its history.  All such runs coincide with the functional model. -/
+
+/-- **Every theorem above is independent of the heap's tie-breaking history:** any
+    nondeterministic run from `NewAllocator(mt, mp)` ends in literally the same state with the same
+    event list as `run pick` for every admissible `pick`; in particular its final state is
+    `Reachable pickMin`, and (`run_isRunR`) the functional model is itself such a run. -/
+theorem any_heap_choice {pick : Pick} (hp : Admissible pick) {mt mp : Nat} (ht : mt < W) (hm : mp < W)
+    {ops : List Op} {r : State × List Event} (h : RunR (init mt mp) ops r) :
+    r = run pick (init mt mp) ops ∧ Reachable pick mt mp r.1 ∧
+    RunR (init mt mp) ops (run pick (init mt mp) ops) := by
+  have e := runR_unique hp (Inv.init ht hm) h
+  exact ⟨e, ⟨ops, by rw [e]⟩, run_isRunR hp (Inv.init ht hm) ops⟩
+
+/-- C13 restated directly for nondeterministic runs (limits, exact ledger without underflow). -/
+theorem limits_ledger_any_heap_choice {mt mp : Nat} (ht : mt < W) (hm : mp < W)
+    {ops : List Op} {r : State × List Event} (h : RunR (init mt mp) ops r) (p : Nat) :
+    r.1.total ≤ mt ∧ allocatedFor r.1 p ≤ mp ∧ replayFrom p 0 r.2 = some (allocatedFor r.1 p) := by
+  obtain ⟨e, hr, _⟩ := any_heap_choice pickMin_admissible ht hm h
+  have hl := limits pickMin_admissible ht hm hr
+  refine ⟨hl.1, hl.2.2.2 p, ?_⟩
+  rw [e]; exact ledger pickMin_admissible ht hm ops p
 
 end GS.C13
